@@ -79,10 +79,60 @@ async def sk_move_close_then_deliver(hp, w, rnd, ctx):
     w.check_disk("INBOX")
 
 
+async def sk_delivery_while_a_command_is_executing(hp, w, rnd, ctx):
+    """The agent files a message while one session's command is still
+    executing (slow reader), then another session's flag-changing command
+    rewrites .mh_sequences: the new message must still be announced with
+    exactly the agent's flags."""
+    import asyncio
+
+    a = w.session()
+    c = w.session()
+    for i in range(5):
+        await w.op_append(a, "INBOX", flags=rnd.choice([["\\Seen"], None, ["\\Seen", "kw1"]]))
+    await w.op_select(a, "INBOX")
+    await w.op_select(c, "INBOX")
+    for rounds in range(3):
+        x = w.rig.session("X")
+        r = await x.cmd("SELECT INBOX")
+        ev = asyncio.Event()
+        x.writer.stall_ev = ev
+        await x.cmd(rnd.choice(["FETCH 2 BODY.PEEK[]", "FETCH 1:3 (FLAGS BODY.PEEK[HEADER])", "UID SEARCH ALL"]), wait=False)
+        await w.rig.settle()
+        unseen = [rnd.random() < 0.6 for _ in range(rnd.randint(1, 2))]
+        w.no_probe = True
+        try:
+            w.deliver("INBOX", len(unseen), unseen=unseen)
+            w.stats["deliveries_during_executing_command"] += 1
+            kind = rnd.choice(["store", "store", "store_del", "fetch_seen"])
+            n = a.nview()
+            if kind == "store":
+                await w.op_store(a, [rnd.randint(1, n)], rnd.choice(["add", "remove"]), [rnd.choice(["\\Flagged", "\\Answered", "kw1"])], silent=rnd.random() < 0.3)
+            elif kind == "store_del":
+                await w.op_store(a, [rnd.randint(1, n)], "add", ["\\Deleted"])
+            else:
+                await w.op_fetch(a, [rnd.randint(1, n)], "UID BODY[]", sets_seen=True)
+        finally:
+            w.no_probe = False
+            ev.set()
+            x.writer.stall_ev = None
+        await w.rig.settle()
+        x.pump()
+        if x.writer.closed:
+            w.stats["stalled_client_dropped"] += 1
+        else:
+            await x.cmd("LOGOUT")
+        await w.rig.advance(6)
+        await w.op_noop(a)
+        await w.op_noop(c)
+        await w.observe()
+        w.check_disk("INBOX")
+
+
 class C13(HistProp):
     prop = PROP
     names = ["INBOX", "other"]
-    skeletons = [sk_number_reuse, sk_delivery_to_idle_unselected_inactive, sk_move_close_then_deliver]
+    skeletons = [sk_number_reuse, sk_delivery_to_idle_unselected_inactive, sk_move_close_then_deliver, sk_delivery_while_a_command_is_executing]
     weights = {"deliver": 16, "store": 8, "store_del": 9, "uid_store": 3, "expunge": 9, "uid_expunge": 3, "move": 4, "copy": 3, "append": 4, "noop": 9, "idle": 5, "advance": 4,
                "fetch_body": 3, "close": 3, "unselect": 3, "restart": 1, "check": 3}
     opts = {}
